@@ -151,7 +151,7 @@ func (c *c08state) observe(after, rollbackKind string) {
 		fdb.Close()
 	}()
 	r.env.Count("c08.observations")
-	walkAddrs := !r.locked || full
+	walkAddrs := full // ForEachAccountAddress derives every key of the account: full passes only
 	a := c.answers(r.mgr, r.db, full, walkAddrs)
 	b := c.answers(fresh, fdb, full, walkAddrs)
 	bm := make(map[string]string, len(b))
@@ -193,6 +193,11 @@ func (c *c08state) observe(after, rollbackKind string) {
 			sig = fmt.Sprintf("memory-ahead-of-disk:op=%s:rollback=%s", r.apiName(), rollbackKind)
 		} else {
 			sig = "restart-differs:field=" + a[i].class
+		}
+		if c.resync {
+			// one report per observation; the rest is only remembered
+			c.lastDiff[a[i].key] = true
+			continue
 		}
 		if r.fail(sig, "after %s (%s): query %s: the running manager answers %q, a manager freshly opened on the same committed file answers %q",
 			after, map[bool]string{true: "committed", false: "rolled back: " + rollbackKind}[rollbackKind == ""], a[i].key, a[i].val, bv) {
